@@ -36,6 +36,24 @@ func main() {
 		cmdCheck(os.Args[2:])
 	case "replay":
 		cmdReplay(os.Args[2:])
+	case "ssa":
+		ctx, err := Load("/repo", []string{os.Args[2]})
+		if err != nil {
+			fmt.Fprintln(os.Stderr, err)
+			os.Exit(2)
+		}
+		for _, sp := range ctx.spkg {
+			if ctx.byPath[sp.Pkg.Path()] == nil {
+				continue
+			}
+			fc := &FuncContract{PkgPath: sp.Pkg.Path(), Key: os.Args[3]}
+			if f := ctx.funcFor(fc); f != nil {
+				f.WriteTo(os.Stdout)
+				for _, af := range f.AnonFuncs {
+					af.WriteTo(os.Stdout)
+				}
+			}
+		}
 	default:
 		fmt.Fprintln(os.Stderr, "unknown command", os.Args[1])
 		os.Exit(2)
